@@ -43,9 +43,9 @@ func cmdCheck(args []string) int {
 	if s := os.Getenv("VERIF_SEED"); s != "" {
 		seed, _ = strconv.Atoi(s)
 	}
-	timeout := 10
+	timeout := 20
 	if *tier == "thorough" {
-		timeout = 60
+		timeout = 90
 	}
 	replayDir := filepath.Join(*verifDir, "replays", *prop)
 	_ = os.RemoveAll(replayDir)
